@@ -141,8 +141,8 @@ impl StreamContext {
 //@|    let ghost f0 = old(stream).filtered_msgs@;
 //@|    let ghost p0 = old(stream).all_msgs_last_processed_len as int;
 //@|    let ghost off = new_msgs_offset as int;
-//@   hint before `stream.all_msgs_last_processed_len = new_msgs_offset + max_idx;`
 //@|    proof {
+//@|        // facts for the stream branch, stated before the branch so that no hint hangs on its statements
 //@|        assert(new_msgs@.subrange(0, max_idx as int) =~= all.subrange(off, off + max_idx));
 //@|        lemma_mf_concat(all, &stream.filters, 0, off, off + max_idx);
 //@|    }
